@@ -13,27 +13,11 @@ import ScpiVerif.Props.C13
 import ScpiVerif.Lemmas.Dispatch
 
 namespace ScpiVerif.Props.C02
-open ScpiVerif ScpiVerif.Ctx ScpiVerif.Lexer ScpiVerif.Spec ScpiVerif.Spec.Message
+open ScpiVerif ScpiVerif.Ctx ScpiVerif.Lexer ScpiVerif.Spec.Message
+open ScpiVerif.Spec hiding Expect
 
-/-- the table's patterns belong to the property's grammar and satisfy C03's side condition -/
-def TableOK (cmds : List Cmd) (pats : List Pattern.Pat) : Prop :=
-  pats.length = cmds.length ∧
-  ∀ i (h : i < cmds.length), ∃ p, pats[i]? = some p ∧ Pattern.parsePattern (cmds[i]).pattern = some p ∧ Pattern.wellFormed p.kws = true
-
-/-- no handler script queues -113 itself (so that every -113 in the trace comes from the dispatcher) -/
-def NoScript113 (cmds : List Cmd) : Prop :=
-  ∀ cmd ∈ cmds, ∀ op ∈ cmd.script, ∀ code info, op = SOp.ePush code info → code ≠ -113
-
-/-- dispatch-level projection of the events produced by one SCPI_Parse: handler entries and -113 errors -/
-def dispatchTrace (evs : List Ev) : List Ev :=
-  evs.filter (fun e => match e with | .handler .. => true | .error (-113) _ => true | _ => false)
-
-/-- does the event realise the expectation?  A handler event must name the matched entry's tag and carry
-exactly the effective header; an undefined header must give a -113 whose text contains the header as written -/
-def realises (cmds : List Cmd) (hdrAsWritten : Bytes) : Expect → Ev → Prop
-  | .run i eff, .handler tag h => (∃ cmd, cmds[i]? = some cmd ∧ tag = cmd.tag) ∧ h = eff
-  | .undefined _, .error (-113) (some text) => ∃ pre post, text = pre ++ hdrAsWritten ++ post
-  | _, _ => False
+-- `TableOK`, `NoScript113`, `dispatchTrace`, `realises` (namespace ScpiVerif.Props.C02) are defined in
+-- ScpiVerif/Lemmas/DispatchDefs.lean, unchanged, so that the helper lemmas can speak about them.
 
 /-- Full statement: for every context, every command table of the grammar (overlapping and duplicate
 patterns included), every script assignment and every well-formed message lying in the input buffer,
@@ -62,5 +46,35 @@ theorem effective_rule (prev : Option Bytes) (hdr : Bytes) :
   cases prev with
   | none => rfl
   | some p => by_cases h1 : hdr.head? = some 58 ∨ hdr.head? = some 42 <;> by_cases h2 : p.head? = some 42 <;> simp [h1, h2] <;> (try (rcases h1 with h | h <;> simp [h]))
+
+/-! ### non-vacuity: the table ["A:B" -> 7, "A:C" -> 8] and the message "A:B;C;X\n" -/
+
+/-- example table -/
+def exTable : List Cmd := [⟨[65,58,66], 7, []⟩, ⟨[65,58,67], 8, [.ret true]⟩]
+/-- its patterns as the specification reads them -/
+def exPats : List Pattern.Pat :=
+  [⟨false, false, [⟨[65], [65], false, false⟩, ⟨[66], [66], false, false⟩]⟩,
+   ⟨false, false, [⟨[65], [65], false, false⟩, ⟨[67], [67], false, false⟩]⟩]
+/-- a context whose input buffer starts with "A:B;C;X\n" -/
+def exCtx : Ctx := { Ctx.init exTable [] 16 4 false with buf := [65,58,66,59,67,59,88,10,0,0,0,0,0,0,0,0] }
+
+-- the hypotheses of `dispatch_correct` hold for the example
+example : TableOK exCtx.cmds exPats := by
+  refine ⟨rfl, ?_⟩
+  intro i h
+  match i, h with
+  | 0, _ => exact ⟨_, rfl, (by show Pattern.parsePattern [65,58,66] = _; decide), by decide⟩
+  | 1, _ => exact ⟨_, rfl, (by show Pattern.parsePattern [65,58,67] = _; decide), by decide⟩
+example : NoScript113 exCtx.cmds := by
+  intro cmd hc op ho code info he
+  simp [exCtx, Ctx.init, exTable] at hc
+  rcases hc with rfl | rfl <;> simp at ho
+  subst ho; cases he
+example : ∀ u ∈ unitsOf ((exCtx.buf.drop 0).take 8), u.wellFormed = true ∧ 0 ≤ u.nParams := by decide
+-- what the specification expects and what the model does ("C" and "X" are completed to "A:C" and "A:X")
+example : expectDispatch exPats (unitsOf ((exCtx.buf.drop 0).take 8)) =
+    [.run 0 [65,58,66], .run 1 [65,58,67], .undefined [65,58,88]] := by decide
+example : dispatchTrace ((parse exCtx 0 8).1.events.drop exCtx.events.length) =
+    [.handler 7 [65,58,66], .handler 8 [65,58,67], .error (-113) (some [88])] := by decide +kernel
 
 end ScpiVerif.Props.C02
